@@ -283,6 +283,10 @@ func run(t *testing.T, prof raftsim.Profile, rec *stats.Recorder) {
 				if n := c.S.St.ExcludedKnown + o.excludedPanics; n > 0 {
 					rec.Count("excluded_by_known_finding", int64(n))
 				}
+				rec.Count("sum_steps", int64(c.S.St.Steps))
+				rec.Count("sum_readies", int64(c.S.St.Readies))
+				rec.Count("sum_crashes", int64(c.S.St.Crashes))
+				rec.Count("sum_restarts", int64(c.S.St.Restarts))
 				rec.Record(c.S.TraceHash(), nt, labels, func() interface{} { return sample(c, o) })
 			},
 		})
